@@ -33,6 +33,9 @@ ANCHORS = ['Array.__getitem__', 'Array.__setitem__', 'Array.__delitem__', 'Array
            'Array._create_element', 'Array._set_dtype']
 LIST_OPS = ['get', 'getslice', 'set', 'setslice', 'del', 'delslice', 'append', 'extend', 'insert', 'pop', 'reverse', 'count',
             'len', 'iter', 'copy', 'equals', 'dtype', 'data_append']
+FOREIGN_QUERIES = [lambda: 2.5, lambda: -0.5, lambda: '2', lambda: ' 2', lambda: 'AB', lambda: '0xab', lambda: 'a_b', lambda: '0b101', lambda: '1 01',
+                   lambda: 'True', lambda: '1', lambda: '0', lambda: True, lambda: None, lambda: [97, 98], lambda: __import__('fractions').Fraction(5, 2),
+                   lambda: 1 + 0j, lambda: b'ab', lambda: 'ab', lambda: 'a', lambda: '0', lambda: 2 ** 70, lambda: '101', lambda: '7', lambda: 1.0, lambda: 0.5]
 REQUIRED_OPS = LIST_OPS + ['binop-scalar', 'binop-array', 'inplace-scalar', 'bitwise', 'compare', 'unary', 'reflected']
 MIN_EVALS = {'quick': 20000, 'thorough': 300000}
 
@@ -97,6 +100,8 @@ def gen_list_step(rng, dt, L, tr):
     if op == 'pop':
         return [op, rng.choice([None, ri()])]
     if op == 'count':
+        if rng.random() < 0.3:
+            return [op, ['foreign', rng.randrange(len(FOREIGN_QUERIES))]]      # something no item can be equal to - or can it?
         return [op, dt.rng_value(rng, True)]
     if op == 'dtype':
         nd = rng.choice(POOL)
@@ -244,6 +249,14 @@ def list_step(ctx, a, dt, m, tr, st, case):
                 ic = 'trailing'
                 raise ValueError
             m.reverse()
+        elif op == 'count' and isinstance(st[1], list) and st[1] and st[1][0] == 'foreign':
+            # list model: the number of DECODED items that compare equal to the query (a query the dtype could encode is not thereby equal to an item)
+            q = FOREIGN_QUERIES[st[1][1]]()
+            if dt.family == 'bits' and not isinstance(q, (int, float, complex, type(None))):
+                q = None        # a bitstring item compared with a str / bytes / list promotes it (or refuses it): C13's business
+            act = lambda: a.count(q)  # noqa: E731
+            ic = 'foreign-query'
+            exp_ret = ('raw', sum(1 for x in dec_all(dt, m) if x == q))
         elif op == 'count':
             v = st[1]
             act = lambda: a.count(P(v))  # noqa: E731
